@@ -7,6 +7,8 @@ CONSTANTS
   UserPrefixes = {"a"}
   UserVerbs = {"register", "unregister"}
   Routes <- R0
+  LateRoutes = {}
+  Stall = FALSE
   MaxConn = 1
   MaxClock = 3
   ReplyKinds = {"r200", "r400", "silence"}
